@@ -6,7 +6,12 @@
      C09 ⟵ C02   Proofs/ComposeC09.v                            `consistent w` ("hash-key soundness") of C09_*
      C03 ⟵ C02   Proofs/ComposeC03.v                            `key_of` instantiated with C02's key
      C06 ⟵ C07   Proofs/ComposeStore.v                          the concurrent store inherits C07's invariant
-   Witnesses for the non-vacuity examples: Proofs/ComposeEx.v (toyH: a concrete 64-hex-valued hash).
+     C20 ⟵ C11   Proofs/ComposeC20.v                            a client arriving during / after shutdown gets its result
+     C09 ⟵ C07   Proofs/ComposeC09C07.v                         ReqSM's put-fault classes = LruPut's outcomes; "the faults
+                                                                 have stopped" of C09_repopulates follows from C07
+     C01 ⟵ C08 ⟵ C10   Proofs/ComposeHitBytes.v                 C10's "get_object wrote the complete stored member" from
+                                                                 C08_roundtrip; the whole hit, request machine to files
+   Witnesses for the non-vacuity examples: Proofs/ComposeEx.v (toyH: a concrete 64-hex-valued hash), Proofs/ComposeEx2.v.
 
    Throughout, H stands for util::hex ∘ BLAKE3; it is universally quantified, its range is 64 hex characters
    (`forall x, is_hex64 (H x) = true`, as in Properties/C02.v) and it is assumed collision-free ONLY on explicit
@@ -19,6 +24,7 @@ From Sccache Require Model.Stats Model.ReqSM Proofs.ReqSM Model.Lru Model.HitMod
      Model.DiskCache Proofs.DiskCache Proofs.Lru.
 From Sccache Require Import Proofs.ComposePpLocal Proofs.ComposeC04 Proofs.ComposeC09 Proofs.ComposeC03
      Proofs.ComposeStore Proofs.ComposeEx.
+From Sccache Require Proofs.ComposeC20 Proofs.ComposeC09C07 Proofs.ComposeHitBytes Proofs.ComposeEx2.
 Import ListNotations.
 Local Open Scope N_scope.
 
@@ -421,3 +427,278 @@ Example Compose_store_example :
     (Model.DiskCache.ws (Model.DiskCache.exec (Model.DiskCache.start 100 store_ex_disk store_ex_threads)
                                               [0; 0; 0; 0; 1; 1]%nat)) = true.
 Proof. exact store_ex_ok. Qed.
+
+(* ====================================================================== C20 ⟵ C11 (beyond the cut connection) *)
+
+(* A client that arrives after a stop request was polled — during the whole shutdown, while in-flight requests finish,
+   and after termination — is refused (C20_late_client_cold_starts), cold-starts a fresh server that reports the
+   requested address (C11_server_reports_requested_address) and, reaching its listener within the retries, gets the
+   CompileFinished frame it is sent (C11_cold_start_delivers): the user sees the compile result, not an error. *)
+Theorem Compose_C20_late_client_gets_result :
+  forall (t cap : N) (evs : list ServerLife.levent) (c : N) (evs' : list ServerLife.levent) 
+    (a : Client.saddr) (later : list Client.conn_attempt) (opq : N -> list N -> bool) 
+    (ignore_io : bool) (f : Client.finished) (tail : list N) (e : Client.ending),
+  let s := ServerLife.lexec (ServerLife.linit t cap) evs in
+  ServerLife.lphase s = ServerLife.Serving ->
+  ServerLife.has_conn c (ServerLife.lconns s) = true ->
+  let s2 :=
+    ServerLife.lexec (ServerLife.lstep (ServerLife.lstep s (ServerLife.LRequest c true)) ServerLife.LPoll) evs'
+    in
+  Client.connect_with_retry later = true ->
+  Client.wf_finished f ->
+  Client.blen (Client.encode_finished f) < 4294967296 ->
+  Client.compile_process opq ignore_io (ServerExit.arrival s2) (Client.report_of_started_server a) later
+    (Client.frame (Client.encode_compile_response Client.CompileStarted) ++
+     Client.frame (Client.encode_finished f) ++ tail) e = Client.PCompile (Client.ReturnFinished f).
+Proof. exact Proofs.ComposeC20.late_client_gets_result. Qed.
+Print Assumptions Compose_C20_late_client_gets_result.
+
+(* the same for ANY way the serving phase ended (idle expiry included): C20_not_serving_refuses + C11 *)
+Theorem Compose_C20_not_serving_client_gets_result :
+  forall (s : ServerLife.lst) (evs : list ServerLife.levent) (a : Client.saddr)
+    (later : list Client.conn_attempt) (opq : N -> list N -> bool) (ignore_io : bool) 
+    (f : Client.finished) (tail : list N) (e : Client.ending),
+  ServerExit.connect_ok s = false ->
+  Client.connect_with_retry later = true ->
+  Client.wf_finished f ->
+  Client.blen (Client.encode_finished f) < 4294967296 ->
+  Client.compile_process opq ignore_io (ServerExit.arrival (ServerLife.lexec s evs))
+    (Client.report_of_started_server a) later
+    (Client.frame (Client.encode_compile_response Client.CompileStarted) ++
+     Client.frame (Client.encode_finished f) ++ tail) e = Client.PCompile (Client.ReturnFinished f).
+Proof. exact Proofs.ComposeC20.not_serving_client_gets_result. Qed.
+Print Assumptions Compose_C20_not_serving_client_gets_result.
+
+(* ====================================================================== C09 ⟵ C07 *)
+
+(* The storage-fault classes of the request machine's result put (Model/ReqSM.v f_put) are the outcomes of the real
+   store's put protocol (Model/LruPut.v put), [fault_class]: stored ↦ WNone, refused as too large ↦ WTooLarge, write
+   failed / commit refused / other refusal ↦ WErr.  An entry larger than the whole cache is WTooLarge and leaves the
+   store untouched (C07_too_large_refused); a failing write of an accepted entry is WErr; after ANY history of stores
+   and lookups — failing writes included — from the open of ANY directory, a store that fits the configured size is
+   WNone and indexed (C07_put_never_wedges); the class is never WReadOnly / WPanic. *)
+Theorem Compose_C09_put_fault_classes :
+  (forall (s : Lru.st) (k : Lru.key) (n : N) (wf : option N),
+   Lru.cap s < n ->
+   ComposeC09C07.fault_class (snd (LruPut.put s k n wf)) = Model.ReqSM.WTooLarge /\
+   fst (LruPut.put s k n wf) = s) /\
+  (forall (s : Lru.st) (k : Lru.key) (n m : N),
+   snd (Lru.prepare_add s k n) = Lru.ROk ->
+   ComposeC09C07.fault_class (snd (LruPut.put s k n (Some m))) = Model.ReqSM.WErr) /\
+  (forall (s0 : Lru.st) (c : N) (ops : list LruPut.dop) (k : Lru.key) (n : N),
+   n <= c ->
+   ComposeC09C07.fault_class (snd (LruPut.put (LruPut.drun (Lru.reopen s0 c) ops) k n None)) =
+   Model.ReqSM.WNone /\
+   Lru.alookup k (Lru.index (fst (LruPut.put (LruPut.drun (Lru.reopen s0 c) ops) k n None))) = Some n) /\
+  (forall (s : Lru.st) (k : Lru.key) (n : N) (wf : option N),
+   ComposeC09C07.fault_class (snd (LruPut.put s k n wf)) <> Model.ReqSM.WReadOnly /\
+   ComposeC09C07.fault_class (snd (LruPut.put s k n wf)) <> Model.ReqSM.WPanic).
+Proof. exact Proofs.ComposeC09C07.put_fault_classes. Qed.
+Print Assumptions Compose_C09_put_fault_classes.
+
+(* C09_repopulates with its "the faults have stopped" premise discharged by C07 for the result store: after ANY store
+   history, the fault assignment a fault-free compile of a unit whose packed entry fits the configured size sees
+   ([store_faults], computed from LruPut.put on the reachable store state) IS no_faults; so the first request
+   re-populates the cache and the second is a hit that runs no compiler. *)
+Theorem Compose_C09_repopulates_after_any_store_history :
+  forall (w : Model.ReqSM.world) (st : Model.ReqSM.cstate) (t : N) (s0 : Lru.st) 
+    (c : N) (ops : list LruPut.dop) (k : Lru.key) (n : N),
+  Proofs.ReqSM.consistent w ->
+  Proofs.ReqSM.Inv w st ->
+  Proofs.ReqSM.sane (w t) ->
+  Proofs.ReqSM.calm_oracle (w t) ->
+  Model.ReqSM.cs_ro st = false ->
+  Model.ReqSM.o_pp_status (w t) = 0 ->
+  Model.ReqSM.o_c_status (w t) = 0 ->
+  Model.ReqSM.o_cacheable (w t) = true ->
+  n <= c ->
+  let f := ComposeC09C07.store_faults (LruPut.drun (Lru.reopen s0 c) ops) k n None in
+  f = Model.ReqSM.no_faults /\
+  (let
+   '(st1, r1, _) := Model.ReqSM.request f Model.ReqSM.QCompile Model.ReqSM.CCDefault (w t) st in
+    let
+    '(_, r2, _) := Model.ReqSM.request f Model.ReqSM.QCompile Model.ReqSM.CCDefault (w t) st1 in
+     Model.ReqSM.kv_get (Model.ReqSM.o_key (w t)) (Model.ReqSM.cs_res st1) =
+     Some
+       (Model.ReqSM.RGood (Model.ReqSM.o_c_stdout (w t)) (Model.ReqSM.o_c_stderr (w t))
+          (Model.ReqSM.o_c_outputs (w t))) /\
+     Proofs.ReqSM.transparent (w t) r1 /\
+     Proofs.ReqSM.is_hit_of (w t) r2 /\ Proofs.ReqSM.transparent (w t) r2).
+Proof. exact Proofs.ComposeC09C07.repopulates_after_any_store_history. Qed.
+Print Assumptions Compose_C09_repopulates_after_any_store_history.
+
+(* Whatever the real store answers to THIS request's put (too large, write error after any number of bytes, commit
+   refused), the client gets the compiler's own result (C09_faults_transparent), and the store is not wedged by it
+   (C07_put_never_wedges): nothing stays reserved and every later put that fits is accepted and indexed. *)
+Theorem Compose_C09_store_fault_transparent_and_recovers :
+  forall (w : Model.ReqSM.world) (st : Model.ReqSM.cstate) (t : N) (f0 : Model.ReqSM.faults)
+    (cl : Model.ReqSM.req_class) (cc : Model.ReqSM.cache_control) (s0 : Lru.st) 
+    (c : N) (ops : list LruPut.dop) (k : Lru.key) (n : N) (wf : option N),
+  Proofs.ReqSM.consistent w ->
+  Proofs.ReqSM.Inv w st ->
+  Proofs.ReqSM.sane (w t) ->
+  Model.ReqSM.f_outdir_ok f0 = true ->
+  Proofs.ReqSM.calm f0 (w t) ->
+  let s := LruPut.drun (Lru.reopen s0 c) ops in
+  let f := ComposeC09C07.with_put f0 (ComposeC09C07.fault_class (snd (LruPut.put s k n wf))) in
+  Proofs.ReqSM.transparent (w t) (snd (fst (Model.ReqSM.request f cl cc (w t) st))) /\
+  (let s' := fst (LruPut.put s k n wf) in
+   Lru.inv s' /\
+   Lru.handles s' = [] /\
+   Lru.pending_size s' = 0 /\
+   (forall (k' : Lru.key) (n' : N),
+    n' <= c ->
+    snd (LruPut.put s' k' n' None) = LruPut.POk /\
+    Lru.alookup k' (Lru.index (fst (LruPut.put s' k' n' None))) = Some n')).
+Proof. exact Proofs.ComposeC09C07.store_fault_transparent_and_recovers. Qed.
+Print Assumptions Compose_C09_store_fault_transparent_and_recovers.
+
+(* ====================================================================== C01 ⟵ C08 ⟵ C10 *)
+
+(* C10_hit_installs_stored_bytes NAMES the hypothesis "what get_object wrote is the complete stored member"; C08_roundtrip
+   proves it for the real container.  [decodes file o]: the description o of one get_object call in Model/Extract.v is
+   what Model/Zip.v's unpack computed for that member (decoded with that mode, the chunks — in any chunking — being
+   exactly the content; or absent).  Then, for an entry packed from objs0 / stdout / stderr and an extraction that runs
+   to Ok: unpack returns the stored stdout and stderr, and every regular output path holds the stored object's bytes
+   and is given the stored permission bits. *)
+Theorem Compose_C10_hit_installs_compiled_bytes :
+  forall (compress : list N -> list N) (decompress : list N -> option (list N)),
+  (forall x : list N, decompress (compress x) = Some x) ->
+  forall (objs0 : list (list N * option N * list N)) (stdout stderr : list N) (reqs : list (list N * bool))
+    (f0 : FsModel.fs) (objs : list Extract.obj) (readers : list FsModel.thread) (sched : list nat),
+  Zip.objs_ok objs0 ->
+  Zip.writable (Zip.cache_members compress objs0 stdout stderr) = true ->
+  Zip.no_z64_locator (Zip.cache_write compress objs0 stdout stderr) = true ->
+  map fst reqs = map Zip.obj_name objs0 ->
+  match Zip.unpack decompress (Zip.cache_write compress objs0 stdout stderr) reqs with
+  | Zip.UHit _ _ files => Forall2 ComposeHitBytes.decodes files objs
+  | _ => False
+  end ->
+  FsModel.fs_okb f0 = true ->
+  Extract.outputs_okb objs = true ->
+  forallb (Extract.observerb f0) readers = true ->
+  NoDup (map Extract.o_path objs) ->
+  forall (l : Extract.local) (rs : list (Extract.local * list Extract.action)),
+  snd (Extract.run sched f0 objs readers) = (l, []) :: rs ->
+  Extract.l_dead l = false ->
+  (exists files : list (option (option N * list N)),
+     Zip.unpack decompress (Zip.cache_write compress objs0 stdout stderr) reqs = Zip.UHit stdout stderr files) /\
+  Forall2
+    (fun (o0 : list N * option N * list N) (o : Extract.obj) =>
+     Extract.o_special o = false ->
+     FsModel.content (fst (Extract.run sched f0 objs readers)) (Extract.o_path o) = Some (Zip.obj_content o0) /\
+     Extract.o_dec o = Extract.DecOk (Some (Zip.perm_of (Zip.obj_mode o0)))) objs0 objs.
+Proof. exact Proofs.ComposeHitBytes.hit_installs_compiled_bytes. Qed.
+Print Assumptions Compose_C10_hit_installs_compiled_bytes.
+
+(* The whole hit, three models chained: the request machine answers from the cache (C01_hit_returns_stored_entry: the
+   entry stored under the request's key — stdout so, stderr se, objects outs; no compiler run); for the bytes of that
+   entry as CacheWrite packs them, unpacking gives so and se (C08) and the extraction leaves, at every regular output
+   path, exactly the content recorded at store time (C10). *)
+Theorem Compose_C01_hit_end_to_end :
+  forall (compress : list N -> list N) (decompress : list N -> option (list N)),
+  (forall x : list N, decompress (compress x) = Some x) ->
+  forall (f : ReqSM.faults) (cc : ReqSM.cache_control) (o : ReqSM.oracle) (st : ReqSM.cstate),
+  ReqSM.r_outcome (snd (ReqSM.execute f cc o st)) = Some Stats.OHit ->
+  exists (st1 : ReqSM.cstate) (pp : N) (k : ReqSM.key) (so se : ReqSM.bytes) (outs : ReqSM.outputs),
+    ReqSM.generate_hash_key f cc o st = (st1, ReqSM.HKKey k, pp) /\
+    ReqSM.kv_get k (ReqSM.cs_res st1) = Some (ReqSM.RGood so se outs) /\
+    ReqSM.r_client (snd (ReqSM.execute f cc o st)) = ReqSM.CFinished 0 so se /\
+    ReqSM.r_outputs (snd (ReqSM.execute f cc o st)) = outs /\
+    ReqSM.r_cc_runs (snd (ReqSM.execute f cc o st)) = 0 /\
+    (forall (mode_of : list N -> option N) (reqs : list (list N * bool)) (f0 : FsModel.fs)
+       (objs : list Extract.obj) (readers : list FsModel.thread) (sched : list nat),
+     let objs0 := map (fun nc : list N * list N => (fst nc, mode_of (fst nc), snd nc)) outs in
+     Zip.objs_ok objs0 ->
+     Zip.writable (Zip.cache_members compress objs0 so se) = true ->
+     Zip.no_z64_locator (Zip.cache_write compress objs0 so se) = true ->
+     map fst reqs = map Zip.obj_name objs0 ->
+     match Zip.unpack decompress (Zip.cache_write compress objs0 so se) reqs with
+     | Zip.UHit _ _ files => Forall2 ComposeHitBytes.decodes files objs
+     | _ => False
+     end ->
+     FsModel.fs_okb f0 = true ->
+     Extract.outputs_okb objs = true ->
+     forallb (Extract.observerb f0) readers = true ->
+     NoDup (map Extract.o_path objs) ->
+     forall (l : Extract.local) (rs : list (Extract.local * list Extract.action)),
+     snd (Extract.run sched f0 objs readers) = (l, []) :: rs ->
+     Extract.l_dead l = false ->
+     (exists files : list (option (option N * list N)),
+        Zip.unpack decompress (Zip.cache_write compress objs0 so se) reqs = Zip.UHit so se files) /\
+     Forall2
+       (fun (nc : list N * list N) (ob : Extract.obj) =>
+        Extract.o_special ob = false ->
+        FsModel.content (fst (Extract.run sched f0 objs readers)) (Extract.o_path ob) = Some (snd nc)) outs objs).
+Proof. exact Proofs.ComposeHitBytes.hit_end_to_end. Qed.
+Print Assumptions Compose_C01_hit_end_to_end.
+
+(* ====================================================================== non-vacuity (second group) *)
+
+(* C20 ⟵ C11: connection 2 asks the server to stop while connection 1's compile is in flight; every hypothesis of
+   Compose_C20_late_client_gets_result holds and the late arrival is refused *)
+Example Compose_C20_example :
+  ServerLife.lphase (ServerLife.lexec (ServerLife.linit 0 10000) ComposeEx2.C20Ex.evs) = ServerLife.Serving /\
+  ServerLife.has_conn 2 (ServerLife.lconns (ServerLife.lexec (ServerLife.linit 0 10000) ComposeEx2.C20Ex.evs)) =
+  true /\
+  Client.connect_with_retry ComposeEx2.C20Ex.later = true /\
+  Client.wf_finished ComposeEx2.C20Ex.fin /\
+  Client.blen (Client.encode_finished ComposeEx2.C20Ex.fin) < 4294967296 /\
+  ServerExit.arrival
+    (ServerLife.lexec
+       (ServerLife.lstep
+          (ServerLife.lstep (ServerLife.lexec (ServerLife.linit 0 10000) ComposeEx2.C20Ex.evs)
+             (ServerLife.LRequest 2 true)) ServerLife.LPoll) ComposeEx2.C20Ex.evs') = Client.ARefused.
+Proof. exact Proofs.ComposeEx2.C20Ex.instance. Qed.
+
+(* C09 ⟵ C07: C09's demo world and a store history with a write failing after 3 bytes, an entry larger than the cache
+   and a good store: the hypotheses of the three theorems hold, the three classes occur, and after the history the
+   request machine sees no_faults *)
+Example Compose_C09C07_example :
+  ReqSM.consistent ReqSM.demo_oracle /\
+  ReqSM.Inv ReqSM.demo_oracle ReqSM.empty_cache /\
+  ReqSM.sane (ReqSM.demo_oracle 3) /\
+  ReqSM.calm_oracle (ReqSM.demo_oracle 3) /\
+  ReqSM.cs_ro ReqSM.empty_cache = false /\
+  ReqSM.o_pp_status (ReqSM.demo_oracle 3) = 0 /\
+  ReqSM.o_c_status (ReqSM.demo_oracle 3) = 0 /\
+  ReqSM.o_cacheable (ReqSM.demo_oracle 3) = true /\
+  40 <= 100 /\
+  ComposeC09C07.fault_class
+    (snd (LruPut.put (Lru.reopen (Lru.empty 100) 100) ComposeEx2.C09C07Ex.ka 40 (Some 3))) = ReqSM.WErr /\
+  ComposeC09C07.fault_class (snd (LruPut.put (Lru.reopen (Lru.empty 100) 100) ComposeEx2.C09C07Ex.kb 200 None)) =
+  ReqSM.WTooLarge /\
+  ComposeC09C07.store_faults (LruPut.drun (Lru.reopen (Lru.empty 100) 100) ComposeEx2.C09C07Ex.hist)
+    ComposeEx2.C09C07Ex.ka 40 None = ReqSM.no_faults /\
+  ReqSM.f_outdir_ok ReqSM.no_faults = true /\ ReqSM.calm ReqSM.no_faults (ReqSM.demo_oracle 3).
+Proof. exact Proofs.ComposeEx2.C09C07Ex.instance. Qed.
+
+(* C01 ⟵ C08 ⟵ C10: C08's example entry (obj 0o755, dwo 0o644) extracted in two writes / one write over an existing
+   output: every hypothesis of Compose_C10_hit_installs_compiled_bytes holds and the outputs hold the stored bytes *)
+Example Compose_hit_bytes_example :
+  (forall x : list N, Zip.ex_decompress (Zip.ex_compress x) = Some x) /\
+  Zip.objs_ok Zip.ex_objs /\
+  Zip.writable (Zip.cache_members Zip.ex_compress Zip.ex_objs [] Zip.ex_stderr) = true /\
+  Zip.no_z64_locator (Zip.cache_write Zip.ex_compress Zip.ex_objs [] Zip.ex_stderr) = true /\
+  map fst Zip.ex_reqs = map Zip.obj_name Zip.ex_objs /\
+  match
+    Zip.unpack Zip.ex_decompress (Zip.cache_write Zip.ex_compress Zip.ex_objs [] Zip.ex_stderr) Zip.ex_reqs
+  with
+  | Zip.UHit _ _ files => Forall2 ComposeHitBytes.decodes files ComposeEx2.HitEx.objs
+  | _ => False
+  end /\
+  FsModel.fs_okb ComposeEx2.HitEx.f0 = true /\
+  Extract.outputs_okb ComposeEx2.HitEx.objs = true /\
+  forallb (Extract.observerb ComposeEx2.HitEx.f0) [] = true /\
+  NoDup (map Extract.o_path ComposeEx2.HitEx.objs) /\
+  match snd (Extract.run ComposeEx2.HitEx.sched ComposeEx2.HitEx.f0 ComposeEx2.HitEx.objs []) with
+  | [] => False
+  | (l, []) :: _ => Extract.l_dead l = false
+  | (l, _ :: _) :: _ => False
+  end /\
+  FsModel.content (fst (Extract.run ComposeEx2.HitEx.sched ComposeEx2.HitEx.f0 ComposeEx2.HitEx.objs []))
+    ComposeEx2.HitEx.pa = Some [127; 69; 76; 70] /\
+  FsModel.content (fst (Extract.run ComposeEx2.HitEx.sched ComposeEx2.HitEx.f0 ComposeEx2.HitEx.objs []))
+    ComposeEx2.HitEx.pb = Some [1; 2].
+Proof. exact Proofs.ComposeEx2.HitEx.instance. Qed.
+
